@@ -6,18 +6,23 @@ Model: `Model/ValueOrd.lean` — `Value::compare` (12×12 cells), `PartialEq`, t
 `f64` — the code AS IT IS. The laws are the Boolean predicates `lawRefl`, `lawAntisym`, `lawTrans`, `lawCmpEq`,
 `lawEqSymm`, `lawEqTrans`, `lawEqHash` that the monitor applies to the answers of the implementation.
 
+The model follows the code after the three `fix:` commits F13-negzero (both zeros hash alike), F13-data-order
+(`Text`/`Record` vs `Data` answer `Greater`) and F13-inf-refl (`x == y ⇒ Equal` for floats).
+
 The fragment `F` (`InF`): values whose leaves are `Extant`, `Boolean`, `Int32`, `Int64`, `UInt32`, `UInt64`, `BigInt`,
-`BigUint`, `Text`, with records over `F` nested to any depth (attributes, value items, slots); fixed-width payloads
-in range (`Val.wf`). On `F` all laws are theorems (for ALL values: structural induction over `Val`/`Elems`).
-Outside `F` (a `Float64` or a `Data` anywhere) the laws are false of the current code (finding F13): the full
-statements are kept as `def`s with `_fails` witnesses.
+`BigUint`, `Text`, `Data`, with records over `F` nested to any depth (attributes, value items, slots); fixed-width
+payloads in range (`Val.wf`). On `F` all laws are theorems (for ALL values: structural induction over `Val`/`Elems`).
+For ALL well-formed values (floats included): reflexivity of `cmp` and `==`, and `== ⇒` equal hashes.
+With a `Float64` somewhere the remaining laws are false of the current code (finding F13, behavioural choices:
+integer-vs-float equality, EPSILON comparison, float truncation against big integers): the full statement is kept
+as a `def` with `_fails` witnesses.
 -/
 import SwimVerif.Proofs.ValueOrd
 
 set_option linter.unusedVariables false
 namespace SwimVerif.ValueOrd
 
-/-- The fragment `F`: well-formed, no `Float64` and no `Data` anywhere inside. -/
+/-- The fragment `F`: well-formed, no `Float64` anywhere inside. -/
 def InF (a : Val) : Prop := a.wf = true ∧ a.inF = true
 
 instance (a : Val) : Decidable (InF a) := by unfold InF; infer_instance
@@ -109,7 +114,32 @@ example : (Val.record (.item (.i32 1) .nil)).eq (.record (.item (.biguint 1) .ni
 example : (Val.i32 (-1)).cmp (.u64 18446744073709551615) = .lt := by decide
 example : view (.u32 7) = .num 7 ∧ view (.bigint 7) = .num 7 := ⟨rfl, rfl⟩
 
-/-! ## Outside `F` the laws are false of the current code (finding F13): full statements + witnesses -/
+/-! ## For ALL well-formed values, floats included (after F13-negzero and F13-inf-refl) -/
+
+/-- Every value compares `Equal` to itself (infinities included since `fix:` F13-inf-refl). -/
+theorem C19_cmp_refl_all (a : Val) : lawRefl (a.cmp a) = true := by
+  simp [lawRefl, (reflV_all a).1]
+
+theorem C19_eq_refl_all (a : Val) : a.eq a = true := (reflV_all a).2
+
+/-- Equal values feed the same stream to the hasher — for every well-formed value (`0.0`/`-0.0` included since
+`fix:` F13-negzero; two `==` floats are both zero or have the same bits: `decode_feq_bits`). -/
+theorem C19_eq_implies_hash_eq_all (a b : Val) (ha : a.wf = true) (hb : b.wf = true) :
+    lawEqHash (a.eq b) (a.heq b) = true := by
+  unfold lawEqHash Val.heq
+  cases e : a.eq b
+  · rfl
+  · simp [hashAllV_all a ha b hb e]
+
+/-! Regressions of the three repaired cells (corpus cases F13a, F13a', F13e, F13f, F13g). -/
+example : (Val.data []).cmp (.record .nil) = .lt ∧ (Val.record .nil).cmp (.data []) = .gt := by decide
+example : (Val.data []).cmp (.text [97]) = .lt ∧ (Val.text [97]).cmp (.data []) = .gt := by decide
+example : (Val.f64 0).eq (.f64 0x8000000000000000) = true ∧ (Val.f64 0).heq (.f64 0x8000000000000000) = true := by
+  decide +kernel
+example : (Val.f64 0x7ff0000000000000).cmp (.f64 0x7ff0000000000000) = .eq := by decide +kernel
+example : InF (.record (.item (.data [97]) .nil)) := by decide
+
+/-! ## With a `Float64` the other laws are false of the current code (finding F13): full statement + witnesses -/
 
 /-- The property as stated, for all well-formed values. FALSE today. -/
 def C19_coherent_all_values : Prop :=
@@ -117,14 +147,6 @@ def C19_coherent_all_values : Prop :=
     lawRefl (a.cmp a) = true ∧ lawAntisym (a.cmp b) (b.cmp a) = true ∧
     lawTrans (a.cmp b) (b.cmp c) (a.cmp c) = true ∧ lawCmpEq (a.cmp b) (a.eq b) = true ∧
     lawEqHash (a.eq b) (a.heq b) = true
-
-/-- F13a: `Data` vs `Record`: `Less` in both directions (`Record`'s catch-all arm answers `Less` for `Data`). -/
-theorem C19_antisym_fails_data_record :
-    (Val.data []).cmp (.record .nil) = .lt ∧ (Val.record .nil).cmp (.data []) = .lt := by decide
-
-/-- F13a': the same for `Text` (its catch-all arm `_ => Less` also covers `Data`). -/
-theorem C19_antisym_fails_data_text :
-    (Val.data []).cmp (.text [97]) = .lt ∧ (Val.text [97]).cmp (.data []) = .lt := by decide
 
 /-- F13b: `Int32 1` vs `Float64 1.0`: `cmp = Equal` but `==` is false (and the hashes differ). -/
 theorem C19_cmp_eq_fails_int_float :
@@ -149,30 +171,12 @@ theorem C19_trans_fails_float_epsilon :
     (Val.f64 0).eq (.f64 0x3ca59e05f1e2674d) = false := by
   decide +kernel
 
-/-- F13e: `0.0 == -0.0` but the hash keys differ (`to_bits`). -/
-theorem C19_eq_hash_fails_neg_zero :
-    (Val.f64 0).eq (.f64 0x8000000000000000) = true ∧ (Val.f64 0).heq (.f64 0x8000000000000000) = false := by
-  decide +kernel
-
-/-- New with this check: `+inf` does not compare `Equal` to itself (`inf - inf = NaN`, not `< EPSILON`; not `<`;
-hence `Greater`), although `inf == inf`. -/
-theorem C19_refl_fails_infinity :
-    (Val.f64 0x7ff0000000000000).cmp (.f64 0x7ff0000000000000) = .gt ∧
-    (Val.f64 0x7ff0000000000000).eq (.f64 0x7ff0000000000000) = true := by
-  decide +kernel
-
-/-- New with this check: `n as f64` rounds: `Int64 2^53` and `Int64 2^53+1` are both `Equal` to `Float64 2^53`
+/-- Found by this check: `n as f64` rounds: `Int64 2^53` and `Int64 2^53+1` are both `Equal` to `Float64 2^53`
 yet differ from each other. -/
 theorem C19_trans_fails_int64_rounding :
     (Val.i64 9007199254740992).cmp (.f64 0x4340000000000000) = .eq ∧
     (Val.f64 0x4340000000000000).cmp (.i64 9007199254740993) = .eq ∧
     (Val.i64 9007199254740992).cmp (.i64 9007199254740993) = .lt := by
-  decide +kernel
-
-/-- The defects lift through records: `{0.0} == {-0.0}` with different hash keys. -/
-theorem C19_eq_hash_fails_record_neg_zero :
-    (Val.record (.item (.f64 0) .nil)).eq (.record (.item (.f64 0x8000000000000000) .nil)) = true ∧
-    (Val.record (.item (.f64 0) .nil)).heq (.record (.item (.f64 0x8000000000000000) .nil)) = false := by
   decide +kernel
 
 theorem C19_coherent_all_values_fails : ¬ C19_coherent_all_values := by
